@@ -143,6 +143,14 @@ Tick ==
   /\ now' = now + 1
   /\ UNCHANGED <<up, used, ph, tm, dl, out, vrun, aw, held, buf>>
 
+\* nothing happens for a while: the clock moves to a later instant, at most to the next armed deadline
+\* (a lifetime that was not given at all is the default of 4000 ms = 400 ticks: nobody wants 400 Tick steps)
+Jump(t) ==
+  /\ Due = {} /\ t > now + 1 /\ t <= MaxT
+  /\ \A e \in Entry : Armed(e) => ~(dl[e] > now /\ dl[e] < t)
+  /\ now' = t
+  /\ UNCHANGED <<up, used, ph, tm, dl, out, vrun, aw, held, buf>>
+
 \* the caller cancels the task that awaits the Interest
 Cancel(e) ==
   /\ aw[e] /\ ph[e] \in {"pend", "val", "late"}
@@ -207,6 +215,7 @@ Next ==
   \/ \E d \in DataSet, env \in Envs, X \in Races : RecvDataX(d, env, X)
   \/ \E e \in Entry, v \in Verdicts : ValFinish(e, v) \/ LateFinish(e, v)
   \/ Fire \/ Tick \/ Shutdown \/ Connect
+  \/ \E t \in 2..MaxT : Jump(t)
   \/ \E e \in Entry : Cancel(e) \/ Await(e)
   \/ \E t \in Templates, r \in Reasons, env \in Envs, X \in Races : RecvNackX(t, r, env, X)
   \/ \E j \in Junk : RecvJunk(j)
